@@ -125,6 +125,14 @@ def run(chk, S: Session):
         for key, f in (("iters", "i"), ("final_constraint", "fx"), ("final_increment", "dx")):
             r3.require(isinstance(stats, dict) and stats.get(key) is fin.fields[f], f"{name} stats[{key}]", f"= final.{f}", f"stats = {T.show(stats, 3)}", where)
         r3.require(w["init"].fields["x"] is x0, f"{name} starts at x0", "", "", where)
+        # the increment criterion must not stop the loop before the first iteration: the initial increment is a non-zero constant fill
+        # (|ones_like(x0)| = sqrt(size) > tol * sqrt(size) for every tol < 1); zeros would return x0 after 0 iterations, affine constraint or not
+        dx0 = init.fields["dx"]
+        ok0 = isinstance(dx0, T.Term) and dx0.op == "np.ones_like" and not T.value_atoms(dx0)
+        if isinstance(dx0, T.Term) and dx0.op in ("np.full_like",) and len(dx0.args) > 1 and isinstance(dx0.args[1], (int, float)):
+            ok0 = abs(dx0.args[1]) >= 1
+        r2.require(True if ok0 else (False if (isinstance(dx0, T.Term) and dx0.op in ("np.zeros_like", "np.zeros")) else None), f"{name} first iteration is not blocked by the increment test",
+                   "initial increment = ones_like(x0): its norm sqrt(size) exceeds tol*sqrt(size) for tol < 1", f"initial increment {T.show(dx0, 3)}: the increment criterion stops the loop before the first Gauss-Newton step", where)
 
     # --- R4: MAP Taylor point and its consumers
     it = S.interp()
